@@ -8,7 +8,7 @@ TRUSTED_BASE = [
     'Gen/Precomp.lean; regenerated every run and validated every run: each generated block is evaluated at Float '
     'by the driver and compared bit for bit with CPython executing the real code string / documented text)',
     'hand-written model lean/PysphVerif/Model/Codegen.lean (sort_precomputed, _setup_precomputed, MegaGroup '
-    'data, pointer set-up, declarations, scratch vectors), tied to the code by comparing with the real functions '
+    'data, pointer set-up, declarations, scratch vectors, call sites of the group callables), tied to the code by comparing with the real functions '
     'and with the parsed generated source of random programs',
     'compyle transpiler, Cython, g++, libm, cyarray: outside the repository and outside any model; for arbitrary '
     'user equations the statement is carried by differential execution (testing), labelled as such',
@@ -25,22 +25,26 @@ READY = True
 DESIGN_REF = '6/C02'
 TECHNIQUE = ('Lean 4 proof over a table regenerated from equation.py/equations.rst and a hand-written model of the '
              'generator bookkeeping + generated-source validation + differential execution of compiled programs')
-LEVEL_TEXT = ("Lean 4 theorems (21) over (i) the precomputed-symbol table regenerated on every run from "
+LEVEL_TEXT = ("Lean 4 theorems (25) over (i) the precomputed-symbol table regenerated on every run from "
               "equation.py::precomputed_symbols() and docs/source/design/equations.rst (precomp_code_eq_doc/_conv, "
               "precomp_matches_doc in every number system, symbols_table_consistent, precomp_table_acyclic) and (ii) a "
               "hand-written model of sort_precomputed, Group._setup_precomputed, MegaGroup._make_data and the pointer / "
               "declaration / scratch-vector set-up, for all tables, key sets and equation lists (sort_is_perm, "
               "sort_respects_deps, sort_terminates_on_dag, closure_closed_minimal, setup_ok_on_shipped_table, wiring_sound, "
-              "wiring_covers_dest/src/precomputed, wiring_types, scratch_disjoint). The model is tied to the code on every "
+              "wiring_covers_dest/src/precomputed, wiring_types, scratch_disjoint; callsites_own_group / callsites_complete: every "
+              "condition/pre/post call of the generated compute refers to self.groups[i](.data[k]) of the group in whose text it "
+              "stands, whatever the Group(name=...) labels are, shared labels included). The model is tied to the code on every "
               "run by translator validation (bit-exact), by the real sort/set-up functions on random tables, and by parsing "
-              "AccelerationEvalCythonHelper.get_code() of random programs; the property's own predicate (values after "
+              "AccelerationEvalCythonHelper.get_code() of random programs (groups, one level of sub-groups, condition/pre/post, "
+              "explicit names: unique or shared by several groups); the property's own predicate (values after "
               "AccelerationEval.compute equal a pure-Python execution along the documented order with the documented "
               "formulas and the Python kernel classes) is evaluated by differential execution of compiled programs.")
 LEVEL_NOTE = ("proof for table / order / closure / wiring; for what transpiled user code computes (compyle, Cython, g++, "
               "libm: outside the repository and outside any model) the statement is carried by differential execution, "
-              "which is testing: quick = 14 compiled programs (generated classes in the documented subset + 6 programs of "
+              "which is testing: quick = 15 compiled programs (2 corpus programs, one of them groups and sub-groups sharing a name "
+              "with conditions of different outcome; generated classes in the documented subset with group callables; 6 programs of "
               "shipped equations), thorough = all curated and discovered scalar-property shipped equations x dims. "
               "WDP/GH*/WDASH* are checked against the naming convention because equations.rst does not list them. "
-              "OpenMP, GPU back ends, strided shipped equations and Python-level hooks (py_initialize/reduce/converged: "
+              "OpenMP, GPU back ends, iterated groups (C03), strided shipped equations and Python-level hooks (py_initialize/reduce/converged: "
               "C03) are not exercised.")
 TIMEOUT = {'quick': 1500, 'thorough': 3 * 3600}
